@@ -341,7 +341,7 @@ pub fn run(args: &Args) -> Out {
         run_case(s, c, t, &mut out);
         return out;
     }
-    for idx in 0..args.n(48, 640) {
+    for idx in 0..args.n(192, 1280) {
         if args.mine(idx) {
             run_case(args.seed, idx, args.thorough, &mut out);
         }
